@@ -85,6 +85,19 @@ theorem skel_collect (t : Tree T) : skel (collect I t).2 = skel t := by
     simp only [skel] at iha ihb ⊢
     rw [iha, ihb]; simp [q, pushParts]
 
+theorem skel_pick (w : Nat) (t : Tree T) : skel (pick I w t).2 = skel t := by
+  unfold pick
+  split
+  · exact skel_first I t
+  · split
+    · exact skel_last I t
+    · exact skel_collect I t
+
+theorem Heap_ofItem? (o : Option T) (p : Nat) : Heap (ofItem? o p) := by
+  cases o with
+  | none => trivial
+  | some it => exact Heap_single it p
+
 theorem skel_tagRoot (m : M) (t : Tree T) : skel (tagRoot I m t) = skel t := by
   cases t <;> rfl
 
@@ -289,6 +302,46 @@ theorem step_heap (ts : List (Tree T)) (op : Op E M V) (h : AllHeap ts) :
     split at hr
     · simp only [Option.some.injEq] at hr; subst hr; exact h.erase i
     · cases hr
+  | moveAt i k j pos p =>
+    simp only [stepM] at hr
+    split at hr
+    · rename_i t u0 hti htj
+      have h1 : AllHeap (ts.set i (removeAt I t k).2) := h.set i (removeAt_heap I t k (h.get hti))
+      split at hr
+      · simp only [Option.some.injEq] at hr; subst hr; exact h1
+      · split at hr
+        · rename_i u huj
+          simp only [Option.some.injEq] at hr; subst hr
+          exact h1.set j (insertAt_heap I u pos _ p (h1.get huj))
+        · cases hr
+    · cases hr
+  | takeAt i k p =>
+    simp only [stepM] at hr
+    split at hr
+    · rename_i t hti
+      have h1 : AllHeap (ts.set i (removeAt I t k).2) := h.set i (removeAt_heap I t k (h.get hti))
+      split at hr
+      · simp only [Option.some.injEq] at hr; subst hr; exact h1
+      · simp only [Option.some.injEq] at hr; subst hr; exact h1.push (Heap_single _ _)
+    · cases hr
+  | dup i w p =>
+    simp only [stepM] at hr
+    split at hr
+    · rename_i t hti
+      split at hr
+      · simp only [Option.some.injEq] at hr; subst hr
+        exact (h.set i (Heap_of_skel_eq (skel_pick I w t) (h.get hti))).push (Heap_ofItem? _ _)
+      · simp only [Option.some.injEq] at hr; subst hr; exact h.push trivial
+    · cases hr
+  | collect2 i j =>
+    simp only [stepM] at hr
+    split at hr
+    · cases hr
+    · split at hr
+      · rename_i a b hti htj
+        simp only [Option.some.injEq] at hr; subst hr
+        exact (h.set i (Heap_of_skel_eq (skel_collect I a) (h.get hti))).set j (Heap_of_skel_eq (skel_collect I b) (h.get htj))
+      · cases hr
 
 theorem run_heap (ops : List (Op E M V)) (ts : List (Tree T)) (h : AllHeap ts) :
     ∀ r : List (Tree T) × List (Obs E G), runM I ts ops = some r → AllHeap r.1 := by
